@@ -261,3 +261,9 @@ def consumer(ctx, tabs):
             for i in range(dim):
                 mom = sum(w * p[i] for p, w in zip(pts, wts))
                 ctx.ob(R, td.qname, f"{label}: first moment in variable {i} is 1/2", _close(mom, Decimal("0.5")), f"{mom:.12f}", node)
+    # the consumer evaluates the field at the rule's own points through face_to_cell(grid, flux, pt): the per-axis interpolation
+    # weights (1 - pt[d], pt[d]) are decided by C06.c and re-evaluated here
+    from . import c06
+    from .common import shared
+
+    shared(ctx, "C15.c", c06.rule_c, why="a rule that is exact for linear functions integrates the RT0 field exactly only if face_to_cell interpolates each component along its own axis")
